@@ -43,13 +43,15 @@ class Recorder(torch.nn.Module):
         r = self.drop(torch.ones_like(r)) * r if self.training else r       # train mode would perturb the outputs
         if self.kind == "tensor":
             return r
-        outs = (r, r.repeat(1, 2).reshape(-1, 2, 1))
+        # second output: either computed, or the input batch itself passed through (an output that is a view of its input)
+        outs = (r, X if getattr(self, "echo", False) else r.repeat(1, 2).reshape(-1, 2, 1))
         return outs if self.kind == "tuple" else list(outs)
 
 
 def one_call(n, b, nargs, bad_arg, kind, dt, cid):
     log = []
     model = Recorder(kind, log, pdtype=torch.float32 if dt % 4 == 3 else torch.float64)
+    model.echo = cid % 3 == 0
     model.train()
     if dt % 3 == 1:          # a model whose root is in eval mode while a sub-module is still in training mode
         model.eval(); model.drop.train(); model.bn.train()
@@ -72,7 +74,8 @@ def one_call(n, b, nargs, bad_arg, kind, dt, cid):
         y = predict(model, X, args=args, batch_size=b, device="cpu")
         ret["st"] = "ok"
         ys = [y] if isinstance(y, torch.Tensor) else list(y)
-        ret["outs"] = [[int(round(v)) for v in t.reshape(t.shape[0], -1)[:, 0].tolist()] for t in ys]
+        ret["outs"] = [dec_rows(t) if (t.ndim == 3 and tuple(t.shape[1:]) == (4, L)) else
+                       [int(round(v)) for v in t.reshape(t.shape[0], -1)[:, 0].tolist()] for t in ys]
     except Exception as e:
         ret["st"] = "err"; ret["kind"] = type(e).__name__
     ret["same"] = [base.tdig(t) for t in tens] == d0
